@@ -96,6 +96,9 @@ class ADAPTAnsatz(Ansatz):
     def update_var_params(self, var_params):
         """Update variational parameters (done repeatedly during VQE)."""
 
+        if len(var_params) != self.n_var_params:
+            raise ValueError(f"Expected {self.n_var_params} variational parameters but received {len(var_params)}.")
+
         for var_index in range(self.n_var_params):
             length_op = self._n_terms_operators[var_index]
 
